@@ -240,7 +240,9 @@ def monitor_faults_c14d(sc, r):
             what = None
             if before["loaded"]:
                 if not now["loaded"]:
-                    what = "the topic was loaded and is not loaded any more"
+                    # (a topic without sessions has its 4 s idle timer running: the real timer may unload it on a slow machine)
+                    if before["sessions"]:
+                        what = "the topic was loaded with sessions attached and is not loaded any more"
                 elif now.get("paused") == "1" or now.get("deleted") == "1":
                     what = "the topic stays %s" % ("paused" if now.get("paused") == "1" else "marked deleted")
                 elif now["sessions"] != before["sessions"]:
